@@ -60,13 +60,24 @@ def crash_shard(shard, nshards, payload):
     cache.write_source(scratch)
     job = 0
     seen_states = set()
+    modes = []
     for (d1, opt, iname, how) in combos:
-        per_byte = tier == 'thorough' or opt == 'noann' or iname == 'empty'
+        modes.append((d1, opt, iname, how, None))
+        # the same with a BUFFERED file object (512 characters): data reaches the file when the buffer fills up
+        # and at close(), so "rename before close" or "crash before close" lose the buffered tail
+        if tier == 'thorough' or iname in ('empty', 'module(sibling)'):
+            modes.append((d1, opt, iname, how, 512))
+        # and fully buffered until close(): the whole text reaches the file in one go at close(), killed after
+        # every character - whatever name the file has by then
+        if tier == 'thorough' or (iname == 'empty' and opt == 'noann') or (iname == 'module(sibling)' and d1 == 'V'):
+            modes.append((d1, opt, iname, how, 10 ** 9))
+    for (d1, opt, iname, how, bufsize) in modes:
+        per_byte = (tier == 'thorough' or opt == 'noann' or iname == 'empty') and bufsize != 512
         for wb1 in (True, False) if tier == 'thorough' else (True,):
             init = prepare(scratch, d1, opt, how)
             # reference run: the steps of an undisturbed definition
             cache.restore_dir(scratch, init)
-            run, res = cache.seq_run(scratch, CLOCK0, [(wb1, [('define', d1, opt)])])
+            run, res = cache.seq_run(scratch, CLOCK0, [(wb1, [('define', d1, opt)])], bufsize=bufsize)
             steps = [(op, path, detail) for (pid, op, path, detail) in run.log if pid == 0]
             why = cache.judge(d1, res[0][0][2]) if res[0] else 'no result'
             if why:
@@ -84,7 +95,7 @@ def crash_shard(shard, nshards, payload):
                 if job % nshards != shard:
                     continue
                 cache.restore_dir(scratch, init)
-                run, res = cache.seq_run(scratch, CLOCK0, [(wb1, [('define', d1, opt)])], crash=(0, i, k))
+                run, res = cache.seq_run(scratch, CLOCK0, [(wb1, [('define', d1, opt)])], crash=(0, i, k), bufsize=bufsize)
                 st.inc('crash_runs')
                 st.inc('transitions', len(run.log))
                 crashed = cache.snapshot_dir(scratch) if os.path.isdir(cache.pkts_dir(scratch)) else None
@@ -98,7 +109,7 @@ def crash_shard(shard, nshards, payload):
                     for tick in ((0,) if tier == 'quick' else (0, 1)):
                         for wb2 in ((True,) if tier == 'quick' else (True, False)):
                             cache.restore_dir(scratch, crashed)
-                            run2, res2 = cache.seq_run(scratch, CLOCK0 + tick, [(wb2, [('define', d2, opt)])])
+                            run2, res2 = cache.seq_run(scratch, CLOCK0 + tick, [(wb2, [('define', d2, opt)])], bufsize=bufsize)
                             st.inc('followups')
                             st.inc('transitions', len(run2.log))
                             out = res2[0][0][2] if res2[0] else ('failed', 'NoResult', run2.error or '')
@@ -120,9 +131,9 @@ def crash_shard(shard, nshards, payload):
                                         st.notes.append('HARNESS: crash %s then define(%s) fails in the harness (%s) but not in a real process' % (at, d2, why2))
                                         continue
                                 st.violate('crash: later %s' % kind,
-                                           'init=%s; process defining (%s,%s) killed %s; a fresh process defining %s%s: %s [real process: %s]' % (
-                                               iname, d1, opt, at, d2, ' one second later' if tick else '', why2, rwhy),
-                                           {'kind': 'crash', 'd1': d1, 'opt': opt, 'init': how, 'crash': [i, k], 'd2': d2, 'tick': tick, 'wb1': wb1, 'wb2': wb2})
+                                           'init=%s%s; process defining (%s,%s) killed %s; a fresh process defining %s%s: %s [real process: %s]' % (
+                                               iname, ' (buffered file object)' if bufsize else '', d1, opt, at, d2, ' one second later' if tick else '', why2, rwhy),
+                                           {'kind': 'crash', 'd1': d1, 'opt': opt, 'init': how, 'crash': [i, k], 'd2': d2, 'tick': tick, 'wb1': wb1, 'wb2': wb2, 'bufsize': bufsize})
                 if job % 499 == common.SEED % 499:
                     st.sample({'init': iname, 'define': [d1, opt], 'killed_at': [i, k], 'step': list(steps[i]) if i < len(steps) else 'end'})
     shutil.rmtree(scratch, ignore_errors=True)
@@ -132,9 +143,9 @@ def crash_shard(shard, nshards, payload):
 # ---------------------------------------------------------------------------------------------
 # interleavings
 # ---------------------------------------------------------------------------------------------
-def conc_run(scratch, init, d1, d2, opt, prefix, ticks, wb=(True, True), record_keys=True):
+def conc_run(scratch, init, d1, d2, opt, prefix, ticks, wb=(True, True), record_keys=True, bufsize=None):
     cache.restore_dir(scratch, init)
-    run = fsx.Run(cache.pkts_dir(scratch), CLOCK0, (cache.STEM,), prefix=prefix, ticks=ticks, record_keys=record_keys)
+    run = fsx.Run(cache.pkts_dir(scratch), CLOCK0, (cache.STEM,), prefix=prefix, ticks=ticks, record_keys=record_keys, bufsize=bufsize)
     results = [[], []]
 
     def body(decl, res):
@@ -150,7 +161,7 @@ def conc_run(scratch, init, d1, d2, opt, prefix, ticks, wb=(True, True), record_
     return run, results
 
 
-def explore_pair(scratch, init, iname, d1, d2, opt, ticks, st, cap, wb=(True, True)):
+def explore_pair(scratch, init, iname, d1, d2, opt, ticks, st, cap, wb=(True, True), bufsize=None):
     visited = set()
     nruns = [0]
     capped = [False]
@@ -159,7 +170,7 @@ def explore_pair(scratch, init, iname, d1, d2, opt, ticks, st, cap, wb=(True, Tr
         if nruns[0] >= cap:
             capped[0] = True
             return
-        run, results = conc_run(scratch, init, d1, d2, opt, prefix, ticks, wb)
+        run, results = conc_run(scratch, init, d1, d2, opt, prefix, ticks, wb, True, bufsize)
         nruns[0] += 1
         st.inc('schedules')
         st.inc('transitions', len(run.log))
@@ -176,7 +187,7 @@ def explore_pair(scratch, init, iname, d1, d2, opt, ticks, st, cap, wb=(True, Tr
                 if not any(v['sig'] == 'interleaving: %s' % kind for v in st.violations):
                     # bind to reality: the recorded schedule is replayed with two real interpreter processes
                     cache.restore_dir(scratch, init)
-                    rres, rerr = cache.real_conc_replay(scratch, CLOCK0, run.log, (d1, d2), opt, wb)
+                    rres, rerr = cache.real_conc_replay(scratch, CLOCK0, run.log, (d1, d2), opt, wb, bufsize)
                     st.inc('real_schedule_replays')
                     rwhy = None if rerr else cache.judge(decl, rres[pi] if rres[pi] else ('failed', 'NoResult', ''))
                     if rerr or not rwhy:
@@ -185,13 +196,13 @@ def explore_pair(scratch, init, iname, d1, d2, opt, ticks, st, cap, wb=(True, Tr
                         continue
                     why += ' [reproduced by two real interpreter processes held to the same schedule: %s]' % rwhy
                 st.violate('interleaving: %s' % kind,
-                           'init=%s; P0 defines %s, P1 defines %s (%s, bytecode %r), schedule %r: process %d: %s | steps: %s' % (
-                               iname, d1, d2, opt, wb, run.choices, pi, why, ' '.join('%s%s:%s' % ('P', t[0], t[1]) if t[0] is not None else 'tick' for t in trace)),
-                           {'kind': 'conc', 'd1': d1, 'd2': d2, 'opt': opt, 'init': init_how[iname], 'schedule': run.choices, 'ticks': ticks, 'wb': list(wb)})
+                           'init=%s%s; P0 defines %s, P1 defines %s (%s, bytecode %r), schedule %r: process %d: %s | steps: %s' % (
+                               iname, ' (buffered file objects)' if bufsize else '', d1, d2, opt, wb, run.choices, pi, why, ' '.join('%s%s:%s' % ('P', t[0], t[1]) if t[0] is not None else 'tick' for t in trace)),
+                           {'kind': 'conc', 'd1': d1, 'd2': d2, 'opt': opt, 'init': init_how[iname], 'schedule': run.choices, 'ticks': ticks, 'wb': list(wb), 'bufsize': bufsize})
         if nruns[0] in (1, 7) and not any(cache.judge(d, r[0] if r else ('failed', 'x', '')) for d, r in ((d1, results[0]), (d2, results[1]))):
             # a passing schedule too: the real processes must take exactly these steps and behave the same
             cache.restore_dir(scratch, init)
-            rres, rerr = cache.real_conc_replay(scratch, CLOCK0, run.log, (d1, d2), opt, wb)
+            rres, rerr = cache.real_conc_replay(scratch, CLOCK0, run.log, (d1, d2), opt, wb, bufsize)
             st.inc('real_schedule_replays')
             if rerr or rres[0] != results[0][0] or rres[1] != results[1][0]:
                 st.notes.append('HARNESS: schedule %r of (%s,%s) init=%s: real-process replay disagrees with the harness: %s' % (
@@ -223,6 +234,10 @@ def conc_jobs(tier):
         jobs.append(('noann', 'A', 'A2', 'module(other)+pyc', 'other+', 0, (False, False)))
         jobs.append(('def', 'A', 'A2', 'module(other)+pyc', 'other+', 0, (True, True)))
         jobs.append(('def', 'V', 'C', 'empty', None, 0, (True, True)))
+        jobs = [j + (None,) for j in jobs]
+        for (d1, d2) in [('A', 'A2'), ('A', 'B')]:
+            for iname in ('empty', 'module(sibling)'):
+                jobs.append(('noann', d1, d2, iname, init_states(tier)[iname] or None, 0, (True, True), 512))
         return jobs
     for opt in ('noann', 'def'):
         for (d1, d2) in [('A', 'A'), ('A', 'A2'), ('A', 'B'), ('V', 'C'), ('A2', 'A2')]:
@@ -231,7 +246,9 @@ def conc_jobs(tier):
                     for wb in [(True, True), (True, False), (False, False)]:
                         if ticks and wb != (True, True):
                             continue
-                        jobs.append((opt, d1, d2, iname, how or None, ticks, wb))
+                        jobs.append((opt, d1, d2, iname, how or None, ticks, wb, None))
+                        if not ticks and wb == (True, True):
+                            jobs.append((opt, d1, d2, iname, how or None, ticks, wb, 512))
     return jobs
 
 
@@ -242,17 +259,17 @@ def conc_shard(shard, nshards, payload):
     cache.write_source(scratch)
     jobs = conc_jobs(tier)
     cap = 5000 if tier == 'quick' else 60000
-    for j, (opt, d1, d2, iname, how, ticks, wb) in enumerate(jobs):
+    for j, (opt, d1, d2, iname, how, ticks, wb, bufsize) in enumerate(jobs):
         if j % nshards != shard:
             continue
         init_how[iname] = how
         init = prepare(scratch, d1, opt, how)
-        nstates, nruns, capped = explore_pair(scratch, init, iname, d1, d2, opt, ticks, st, cap, wb)
+        nstates, nruns, capped = explore_pair(scratch, init, iname, d1, d2, opt, ticks, st, cap, wb, bufsize)
         st.inc('pairs')
         if capped:
             st.inc('capped')
         if j % 7 == common.SEED % 7:
-            st.sample({'pair': [d1, d2], 'options': opt, 'init': iname, 'ticks': ticks, 'states': nstates, 'schedules': nruns, 'capped': capped}, cap=4)
+            st.sample({'pair': [d1, d2], 'options': opt, 'init': iname, 'ticks': ticks, 'buffered': bufsize, 'states': nstates, 'schedules': nruns, 'capped': capped}, cap=4)
     shutil.rmtree(scratch, ignore_errors=True)
     return st
 
@@ -307,7 +324,7 @@ def run(tier):
     }
     errs = [n for n in st.notes if n.startswith('HARNESS')]
     return {'stats': st, 'coverage': cov, 'harness_errors': errs[:5],
-            'assumptions': ['each write() call is immediately visible to the other process (a superset of buffered I/O for small files)',
+            'assumptions': ['two models of a file object are explored: every write() immediately visible, and buffered (512 characters; data reaches the file when the buffer fills, on flush and on close)',
                             'process isolation and the clock are modelled; crash states are re-checked with real interpreter processes when they violate',
                             'close() is not a step of its own: with unbuffered writes it has no visible effect']}
 
@@ -324,15 +341,15 @@ def replay(case):
                 run, res = cache.seq_run(scratch, CLOCK0, [(case.get('wb1', True), [('define', case['d1'], case['opt'])])])
                 why = cache.judge(case['d1'], res[0][0][2])
                 return [{'sig': 'undisturbed definition', 'what': why}] if why else []
-            cache.seq_run(scratch, CLOCK0, [(case.get('wb1', True), [('define', case['d1'], case['opt'])])], crash=(0, cr[0], cr[1]))
-            run2, res2 = cache.seq_run(scratch, CLOCK0 + case.get('tick', 0), [(case.get('wb2', True), [('define', case['d2'], case['opt'])])])
+            cache.seq_run(scratch, CLOCK0, [(case.get('wb1', True), [('define', case['d1'], case['opt'])])], crash=(0, cr[0], cr[1]), bufsize=case.get('bufsize'))
+            run2, res2 = cache.seq_run(scratch, CLOCK0 + case.get('tick', 0), [(case.get('wb2', True), [('define', case['d2'], case['opt'])])], bufsize=case.get('bufsize'))
             out = res2[0][0][2] if res2[0] else ('failed', 'NoResult', '')
             why = cache.judge(case['d2'], out)
             return [{'sig': 'crash', 'what': why}] if why else []
         init = prepare(scratch, case['d1'], case['opt'], case['init'])
         outs = []
         for _ in range(2):
-            run, results = conc_run(scratch, init, case['d1'], case['d2'], case['opt'], case['schedule'], case['ticks'], tuple(case.get('wb', (True, True))), False)
+            run, results = conc_run(scratch, init, case['d1'], case['d2'], case['opt'], case['schedule'], case['ticks'], tuple(case.get('wb', (True, True))), False, case.get('bufsize'))
             outs.append(results)
         if outs[0] != outs[1]:
             raise RuntimeError('schedule not reproducible')
